@@ -1,0 +1,20 @@
+/*
+Verification hooks. Everything in this header expands to nothing unless the
+code is compiled with -DYARA_VERIF (which only the CBMC based checks do).
+
+YR_VERIF_LOOP(...) carries a CBMC loop contract (__CPROVER_assigns,
+__CPROVER_loop_invariant, __CPROVER_decreases clauses). It is placed between
+the header of a loop and its body, which is where CBMC reads loop contracts
+from. It never contains executable code.
+*/
+
+#ifndef YR_VERIF_H
+#define YR_VERIF_H
+
+#ifdef YARA_VERIF
+#define YR_VERIF_LOOP(...) __VA_ARGS__
+#else
+#define YR_VERIF_LOOP(...)
+#endif
+
+#endif
